@@ -76,7 +76,6 @@ fn c03_is_complete_iff_chunk_covers_whole_version() {
 /// chunk, every change row is buffered (duplicates ignored) — whatever the order, overlap or
 /// duplication of arrivals (the pre-state is arbitrary).
 #[kani::proof]
-#[kani::unwind(8)]
 fn c03_chunk_arrival_merges_ranges_exactly() {
     let last_seq: u64 = kani::any();
     kani::assume(last_seq <= M);
@@ -155,7 +154,6 @@ fn c03_chunk_arrival_merges_ranges_exactly() {
 
 /// the apply trigger fires exactly when the union of received chunks covers 0..=last_seq
 #[kani::proof]
-#[kani::unwind(8)]
 fn c03_apply_triggered_iff_all_sequences_received() {
     let last_seq: u64 = kani::any();
     kani::assume(last_seq <= M);
@@ -207,7 +205,6 @@ fn c03_apply_triggered_iff_all_sequences_received() {
 
 /// a version nobody buffered is never applied
 #[kani::proof]
-#[kani::unwind(4)]
 fn c03_apply_guard_refuses_unknown_version() {
     let bv = BookedVersions::new(ACTOR);
     assert!(matches!(buffered_apply_precheck(&bv, CrsqlDbVersion(VERSION), ACTOR), Ok(false)));
